@@ -31,6 +31,8 @@ type Case struct {
 	// Login is how the session spells the mailbox in USER/APOP ("" = "box"): any spelling the
 	// naming rule maps to "box" opens the same mailbox.
 	Login string `json:"login,omitempty"`
+	// Assembled: the world is what server.FullAssembly wires together (see hx.Cfg.Assembled)
+	Assembled bool `json:"assembled,omitempty"`
 }
 
 type smsg struct {
@@ -104,6 +106,7 @@ var prop = hx.Prop[Case]{
 			End:     rapid.SampledFrom([]string{"quit", "quit", "drop", "quitdrop"}).Draw(t, "end"),
 			Login:   rapid.SampledFrom([]string{"", "", "", "Box", "BOX", "box+pop", "box@a.test", "bOx+a+b@A.Test"}).Draw(t, "loginname"),
 		}
+		c.Assembled = rapid.IntRange(0, 3).Draw(t, "assembled") == 0
 		// most sessions log in early
 		if rapid.IntRange(0, 4).Draw(t, "login") > 0 {
 			c.Steps = append(c.Steps, Step{K: "cmd", Line: "USER box"}, Step{K: "cmd", Line: "PASS x"})
@@ -148,7 +151,10 @@ func deliver(st storage.Store, box string, body []byte) (smsg, error) {
 func run(c Case) *hx.Outcome {
 	o := &hx.Outcome{}
 	cfg := hx.DefaultCfg()
-	cfg.Backend, cfg.NoHTTP = c.Backend, true
+	cfg.Backend, cfg.NoHTTP, cfg.Assembled = c.Backend, true, c.Assembled
+	if c.Assembled {
+		o.Class("world wired by server.FullAssembly")
+	}
 	w, err := hx.NewWorld(cfg)
 	if err != nil {
 		o.Failf(pid+":harness", "world: %v", err)
